@@ -27,6 +27,11 @@ def build_sandbox(base):
         put("root", rel)
     put("root2", "r2.txt")
     put("root2", "sub/b.txt")
+    # siblings whose names have a root's name as a string prefix, reached through symbolic links (a containment test on the
+    # resolved path must compare whole path components)
+    put("root2", "via_link.txt")
+    put("root2", "linkdir/inner2.txt")
+    put("alias_target2", "x2.txt")
     put("alias_target", "at.txt")
     put("alias_target", "sub/as.txt")
     put("alias2", "x.txt")
@@ -44,6 +49,10 @@ def build_sandbox(base):
     os.symlink("../../outside/dir", os.path.join(R, "sub", "dirlink_out2"))
     os.symlink("../outside/secret.txt", os.path.join(base, "alias_target", "link_out"))
     os.symlink("../root/a.txt", os.path.join(base, "alias_target", "link_to_root"))
+    os.symlink("../root2/via_link.txt", os.path.join(R, "link_root2"))
+    os.symlink("../root2/linkdir", os.path.join(R, "dirlink_root2"))
+    os.symlink("../../root2/via_link.txt", os.path.join(R, "sub", "link_root2b"))
+    os.symlink("../alias_target2/x2.txt", os.path.join(base, "alias_target", "link_at2"))
     # index files that are symbolic links: out of the root (must not be served when symlinks are checked) and inside it
     os.makedirs(os.path.join(R, "leakidx"))
     os.symlink("../../outside/secret.txt", os.path.join(R, "leakidx", "index.html"))
@@ -55,9 +64,10 @@ def build_sandbox(base):
     return markers
 
 
+SYMLINK_REACHABLE = {("root2", "via_link.txt"), ("root2", "linkdir/inner2.txt"), ("alias_target2", "x2.txt")}
 SEGS = ["a.txt", "sub", "b.txt", "deep", "c.txt", ".", "..", "", ".dotfile", ".hidden", "link_in", "dirlink_in", "link_out", "dirlink_out", "abs_link_out", "dirlink_out2", "secret.txt", "dir", "inner.txt",
         "al", "alx", "inroot.txt", "at.txt", "al2", "x.txt", "list", "withindex", "index.html", "root2", "r2.txt", "outside", "outside2", "never.txt", "alias_target", "fifo", "sp ace.txt", SPECIAL, "...", "..;", "root",
-        "per%cent.txt", "pl+us.txt", "utfé.txt", "nonexistent", "leakidx", "inidx", "leakidx", "inidx", "..\\", "%2e%2e", "..%2f", "%00", "\xff\xfe"]
+        "per%cent.txt", "pl+us.txt", "utfé.txt", "nonexistent", "leakidx", "inidx", "leakidx", "inidx", "link_root2", "dirlink_root2", "link_root2b", "link_at2", "inner2.txt", "via_link.txt", "x2.txt", "alias_target2", "linkdir", "..\\", "%2e%2e", "..%2f", "%00", "\xff\xfe"]
 
 
 def gen_path(rnd):
@@ -68,7 +78,7 @@ def gen_path(rnd):
     if rnd.random() < 0.1:
         segs += [".."] * rnd.randrange(1, 4) + [rnd.choice(["outside2", "root2", "outside"]), rnd.choice(["never.txt", "r2.txt", "secret.txt"])]
     raw = "/" + "/".join(segs)
-    if rnd.random() < (0.5 if segs[-1] in ("leakidx", "inidx", "withindex", "dirlink_out", "dirlink_out2", "dirlink_in", "dir") else 0.15):
+    if rnd.random() < (0.5 if segs[-1] in ("leakidx", "inidx", "withindex", "dirlink_out", "dirlink_out2", "dirlink_in", "dir", "dirlink_root2") else 0.15):
         raw += "/"
     return raw.encode("utf-8", "surrogateescape") if isinstance(raw, str) else raw
 
@@ -207,8 +217,10 @@ def worker(args):
                         # lexical containment only: whatever a symlink inside a root points to may be served
                         if area == "outside":
                             ok = True
-                    if area in ("outside2", "root2", "?"):
+                    if area in ("outside2", "root2", "alias_target2", "?"):
                         ok = False
+                    if (area, rel) in SYMLINK_REACHABLE:
+                        ok = not check_symlink      # files that only a symbolic link inside a root leads to
                     if area == "outside" and check_symlink:
                         ok = False
                     if area in ("alias_target", "alias2") and area not in allowed_areas:
@@ -233,7 +245,7 @@ def worker(args):
                             break
                     # a listing of a directory outside the roots (reached through a symlink) discloses its file names
                     shown = set(proto.url_decode(nm, plus=False) for nm in names)
-                    leak = [x for x in (b"never.txt", b"r2.txt") if x in shown] + ([x for x in (b"secret.txt", b"inner.txt") if x in shown] if check_symlink else [])
+                    leak = [x for x in (b"never.txt", b"r2.txt") if x in shown] + ([x for x in (b"secret.txt", b"inner.txt", b"inner2.txt") if x in shown] if check_symlink else [])
                     if leak:
                         res["viol"].append({"key": "c13:listing-of-directory-outside-document-roots", "detail": "request %r lists %r (check_symlink=%s)" % (path[:200], leak, check_symlink), "replay": rp})
                         break
